@@ -6,6 +6,19 @@ BASELINE = ("cd /repo && cargo nextest run --workspace --no-fail-fast --tool-con
             "--profile pb --test-threads 8 --offline")
 TECH = "contract-based deductive verification: Verus (Z3) on functions of /repo extracted mechanically on every run"
 CLAIMED = {
+ "C11": dict(
+   text=("Verus discharges, for all inputs and configurations, contracts on the real text of every Session operation: lazy loading "
+         "(force_load*), the server-side mutators (insert_raw/remove_raw/clear/delete/invalidate/cycle_id) and the client-side ones, "
+         "with functional postconditions over the whole key/value view, a two-state dirty discipline, frames, and the representation "
+         "invariant; Session::sync and Session::finalize against the store seen as a map (record under the new id equals the logical "
+         "state, nothing left under the old id, every other record untouched, no id-bookkeeping error on a stable store, invariant "
+         "re-established so operations and sync can be mixed), and the cookie finalize returns (removal cookie / wire(new id, client "
+         "state)). unreachable!/assert! sites are proof obligations. Thorough adds native witness histories against the real crates."),
+   note=("Assumed (evidence.trusted_base): stand-in contracts for std HashMap<Cow<str>,_>, OnceCell (exclusive access, rule N6'), "
+         "the SessionStore handle obeying the C13 map contract with no record appearing/expiring during a request (stable store), "
+         "serde_json wire format as an uninterpreted function, UUID freshness as the explicit hypothesis `fresh`. async erased (N1). "
+         "Not decided: concurrent force_load on one Session (type is !Send/!Sync), a failing store, TTL arithmetic (uninterpreted)."),
+   design="§3/C11"),
  "C12": dict(
    text=("Verus discharges, for all inputs, the postcondition of the real `finalize_session` (at most one cookie is attached; "
          "only if the processor will sign or encrypt it; encrypted whenever the client-side state is non-empty; nothing is "
@@ -28,7 +41,6 @@ NA = {
  "C08": "rule checks walk ComponentDb/ComputationDb built from rustdoc JSON; needs whole-repository invariants (DESIGN §3/C08)",
  "C09": "whole-process totality/termination/panic-freedom over 26 kLoC; Verus rejects the loops' text, Kani proves no termination (DESIGN §3/C09)",
  "C10": "not yet built in this tree: planned tier-2 partial claim (idempotence and --check clauses) — see DESIGN §3/C10",
- "C11": "not yet built in this tree: planned claim — see DESIGN §3/C11",
  "C13": "not yet built in this tree: planned claim for the in-memory store — see DESIGN §3/C13",
  "C14": "not yet built in this tree: planned modular claim — see DESIGN §3/C14",
  "C15": "decoding lives in serde/percent-encoding/serde_html_form; pavex part is macro-generated serde glue generic over every Deserialize (DESIGN §3/C15)",
